@@ -26,6 +26,29 @@ from vlib import run_bin, coq_eval
 GEN_SHIFT = 51          # sharded_slab DefaultConfig on 64-bit: generation = key >> 51, (tid, address) below
 GUARD_H = 1000          # handle ids of the spans owned by EnteredSpan guards in the model
 
+TRUSTED = ["Coq 8.16.1 kernel + vm_compute",
+           "Registry/Model.v (hand-written; tied to sharded.rs / stack.rs / layered.rs by the op-by-op correspondence only)",
+           "harness/registry h_registry.rs (recording layers Rec<1>, Rec<2> above tracing_error::ErrorSubscriber; three worker "
+           "threads driven one op at a time)",
+           "driver/props/regcommon.py generator + differ + oracle",
+           "sharded_slab::Pool as an abstract allocator: the id it hands out is fed to the model, which only checks legality "
+           "(slot vacant, generation fresh); thread_local::ThreadLocal as a map thread -> cell"]
+ASSUMPTIONS_C05 = [
+    "OwnDefault: every release that sharded.rs routes through dispatch::get_default (Registry::exit, the parent release in "
+    "Clear for DataInner) reaches the span's own collector; the complement is known finding F2 (C05_F2_refuted)",
+    "well-formed histories: handle ids fresh, explicit parents belong to the creating collector (the rest is checked by correspondence only)",
+    "op granularity in the correspondence: one API call = one atomic step, any interleaving of calls over threads; the "
+    "interleavings INSIDE calls (fetch_add / fetch_sub / clear) are covered by the theorems of Registry/Micro.v, tied to the "
+    "real code by the H3 forced-schedule runs only when hooks/H3_registry.patch is applied",
+    "Release/Acquire on ref_count is treated as sequentially consistent",
+    "per-layer filters (FilterMap) are not modelled (C07)"]
+ASSUMPTIONS_C06 = [
+    "OwnDefault for the readability clause (inherits F2)",
+    "the 'current' clause excludes a span re-entered on a thread where it is already entered (property text); the model and the "
+    "correspondence still cover re-entry",
+    "explicit parents belong to the creating collector",
+    "SpanTrace = a Span handle (tracing-error stores a Span); with_spans walks the scope through the handle's own dispatch"]
+
 
 # ------------------------------------------------------------------------------------------------
 # generator
